@@ -9,12 +9,12 @@ P == JsonDeserialize(IOEnv.MC_PARAMS)
 K == Arity(P)
 HM == P.hmax
 PM == Log2Floor(HM)
-VARIABLES T, f, z, chosen, cand, ended, vstart, mode, askedc, hist
-vars == <<T, f, z, chosen, cand, ended, vstart, mode, askedc, hist>>
+VARIABLES T, f, z, chosen, cand, ended, vstart, mode, askedc, hist, reused
+vars == <<T, f, z, chosen, cand, ended, vstart, mode, askedc, hist, reused>>
 NoBox == <<>>
 Fresh == <<0, 0, 0, 0, <<0, 0>>>>
 Init == /\ T = RootTree(NoBox) /\ f = <<Fresh>> /\ z = ZInit /\ chosen = <<>> /\ cand = <<>> /\ ended = FALSE /\ vstart = 0
-        /\ mode = "told" /\ askedc = 0 /\ hist = <<>>
+        /\ mode = "told" /\ askedc = 0 /\ hist = <<>> /\ reused = {}
 CanPull == mode = "told" /\ Len(hist) < P.R
 
 \* hand out kid z.k of the cell being opened and advance the schedule (root and opening phases)
@@ -34,21 +34,22 @@ PullOpenRoot ==
   /\ CanPull /\ z.ph = "root" /\ z.fresh
   /\ LET e == Expand(T, f, 1) IN
        /\ T' = e[1] /\ chosen' = <<e[1].kids[1][1], e[1].kids[1][2]>> /\ Serve(e[1], e[2], z)
-  /\ mode' = "asked" /\ UNCHANGED <<cand, ended, vstart, hist>>
+  /\ mode' = "asked" /\ UNCHANGED <<cand, ended, vstart, hist, reused>>
 PullOpen ==        \* a scan that finds a cell to open
   /\ CanPull /\ z.ph = "open" /\ z.fresh /\ Qualifying(T, f, z.d, z.p) # {}
   /\ \E m \in OpenChoices(T, f, z.d, z.p) :
        LET e == Expand(T, Scan(T, f, z.d, z.p), m) IN
        /\ T' = e[1] /\ chosen' = chosen \o <<e[1].kids[m][1], e[1].kids[m][2]>> /\ Serve(e[1], e[2], [z EXCEPT !.m = m])
-  /\ mode' = "asked" /\ UNCHANGED <<cand, ended, vstart, hist>>
+  /\ mode' = "asked" /\ UNCHANGED <<cand, ended, vstart, hist, reused>>
 PullReuse ==       \* a scan that finds nothing: the cell opened last is evaluated again (unreachable if the quotas are right)
   /\ CanPull /\ z.ph = "open" /\ z.fresh /\ Qualifying(T, f, z.d, z.p) = {}
   /\ Serve(T, f, z)
+  /\ reused' = reused \cup {z.m}      \* history variable: cells whose children are served beyond their quota
   /\ mode' = "asked" /\ UNCHANGED <<T, chosen, cand, ended, vstart, hist>>
 PullServe ==       \* next evaluation of the cell being opened
   /\ CanPull /\ z.ph \in {"root", "open"} /\ ~z.fresh
   /\ Serve(T, f, z)
-  /\ mode' = "asked" /\ UNCHANGED <<T, chosen, cand, ended, vstart, hist>>
+  /\ mode' = "asked" /\ UNCHANGED <<T, chosen, cand, ended, vstart, hist, reused>>
 ServeVal(cd, f1) ==
   LET c1 == z.c + 1 IN
   /\ askedc' = cd[z.slot + 1] /\ f' = f1
@@ -59,15 +60,15 @@ PullValStart ==    \* the candidates are fixed and their reward lists restarted
   /\ \E cd \in [1 .. PM + 1 -> SeqRange(chosen)] :
        /\ \A q \in 1 .. PM + 1 : cd[q] \in CandChoices(f, chosen, q - 1)
        /\ cand' = cd /\ ServeVal(cd, RestartAll(f, SeqRange(cd)))
-  /\ vstart' = Len(hist) /\ mode' = "asked" /\ UNCHANGED <<T, chosen, ended, hist>>
+  /\ vstart' = Len(hist) /\ mode' = "asked" /\ UNCHANGED <<T, chosen, ended, hist, reused>>
 PullVal ==
   /\ CanPull /\ z.ph = "val" /\ ~z.fresh
   /\ ServeVal(cand, f)
-  /\ mode' = "asked" /\ UNCHANGED <<T, chosen, cand, ended, vstart, hist>>
+  /\ mode' = "asked" /\ UNCHANGED <<T, chosen, cand, ended, vstart, hist, reused>>
 PullEnded ==       \* the schedule is over: the recommendation is handed out and rewards are ignored from now on
   /\ CanPull /\ z.ph = "end"
   /\ \E c \in RecBest(f, SeqRange(cand)) : askedc' = c
-  /\ ended' = TRUE /\ mode' = "asked" /\ UNCHANGED <<T, f, z, chosen, cand, vstart, hist>>
+  /\ ended' = TRUE /\ mode' = "asked" /\ UNCHANGED <<T, f, z, chosen, cand, vstart, hist, reused>>
 \* reward alphabet of round t: P.rewards, or (to reach long runs with few sequences) the periodic pattern P.alph
 Alph(t) == IF "alph" \in DOMAIN P THEN P.alph[((t - 1) % Len(P.alph)) + 1] ELSE P.rewards
 Receive ==
@@ -75,7 +76,7 @@ Receive ==
   /\ \E r \in SeqRange(Alph(Len(hist) + 1)) :
        /\ f' = IF ended THEN f ELSE [f EXCEPT ![askedc] = <<@[1] + 1, @[2] + 1, @[3] + r, @[4], @[5]>>]
        /\ hist' = Append(hist, <<askedc, r, IF ended THEN 0 ELSE 1>>)
-  /\ mode' = "told" /\ UNCHANGED <<T, z, chosen, cand, ended, vstart, askedc>>
+  /\ mode' = "told" /\ UNCHANGED <<T, z, chosen, cand, ended, vstart, askedc, reused>>
 Next == PullOpenRoot \/ PullOpen \/ PullReuse \/ PullServe \/ PullValStart \/ PullVal \/ PullEnded \/ Receive
 Spec == Init /\ [][Next]_vars
 
@@ -96,8 +97,10 @@ InvCands == cand # <<>> => /\ Len(cand) = PM + 1
 InvDepth == T.pdepth <= HM + 1
 InvStruct == StructOK(P, T)
 \* both evaluated children of an opened cell of depth d received the same power-of-two quota, at most hmax/d,
-\* up to the validation phase (which adds to the candidates)
-InvQuota == (cand = <<>> /\ mode = "told") => \A c \in Cells(T) : f[c][4] = 1 =>
+\* up to the validation phase (which adds to the candidates) -- except below a cell that PullReuse served again: when a
+\* depth holds fewer unopened cells than the schedule wants to open (h_max >= 4 on binary trees: 4 openings wanted at
+\* depth 1, 2 cells exist) the implementation evaluates the children of the cell opened last once more
+InvQuota == (cand = <<>> /\ mode = "told") => \A c \in Cells(T) \ reused : f[c][4] = 1 =>
                LET a == Cnt(f, T.kids[c][1])  b == Cnt(f, T.kids[c][2]) IN
                /\ a = b /\ \E e \in 0 .. 30 : a = 2 ^ e /\ a * T.dep[c] <= HM
 InvOpenedOnce == \A c \in Cells(T) : (~IsLeaf(T, c) /\ f[c][4] = 0) => (c = 1 \/ c = z.m)
